@@ -1,5 +1,5 @@
 PROP = {
-    "thm": ["Umya.Thm.C05", "Umya.Thm.C05Codec"],
+    "thm": ["Umya.Thm.C05", "Umya.Thm.C05Codec", "Umya.Thm.C05Gen"],
     "harness": "c05",
     "level": "proof",
     "stateful": True,
@@ -31,7 +31,7 @@ PROP = {
                         "C05_col_key_injective", "C05_pattern_fill_reload", "C05_pattern_fill_no_merge", "C05_setter_auto_solid", "C05_font_key_fails", "C05_color_key_fails", "C05_key_lookup_merges_fails", "C05_eq_lookup_separates",
                         "C05_enum_codec", "C05_color_codec", "C05_color_set_argb", "C05_font_codec", "C05_fill_codec", "C05_pattern_fill_codec_exact", "C05_border_codec",
                         "C05_alignment_codec", "C05_protection_codec", "C05_numfmt_codec", "C05_row_codec", "C05_column_codec", "C05_enum_tables_match_source",
-                        "C05_codecs_instantiate", "C05_effective_formatting_survives"],
+                        "C05_codecs_instantiate", "C05_effective_formatting_survives", "C05_numfmt_alloc_matches_source"],
     "rule": "one case = one workbook (reset, cell/row/col assignments, save). Streams: (1) every adjacent-field collision pair of the concatenated keys of the unfixed code "
             "(font name|size, size|family, name 'empty!!' vs none, colour argb|tint inside font / pattern fill / border edge / gradient stop, colour none vs argb 'empty!!'), each pair "
             "alone in both orders and all together; (2) one workbook per component with every attribute varied one at a time around a base value, all near-duplicates coexisting "
